@@ -891,6 +891,20 @@ def Q(name, repo=None):
     return M_NS(repo) + name
 
 
+def A0(c):
+    """the (first) parameter of the function under contract, whatever it is called in the source"""
+    return next(iter(c.args.values()))
+
+
+def pname(qual, k, default, rel=None):
+    """name of the k-th parameter in the real source (contracts bind parameters by position, not by name)"""
+    try:
+        f = loader.module(rel or OMML).functions.get(qual)
+        return f.args.args[k].arg
+    except Exception:  # noqa
+        return default
+
+
 def nb_of(v):
     """the brace-free hypothesis for an Optional[Element] argument"""
     return NB(v.t) if isinstance(v, VExt) else z3.BoolVal(True)
@@ -914,9 +928,9 @@ def conv_loop_inv(lc):
     c0 = ex.entry_ctx
     if PENDING in c0.args:                       # inside process_element
         p0 = c0.args[PENDING]
-        cond = z3.And(nb_of(c0.args["elem"]), p_not_rbrace(p0))
+        cond = z3.And(nb_of(A0(c0)), p_not_rbrace(p0))
     else:                                        # inside omml_to_latex
-        cond = nb_of(c0.args["omath_element"])
+        cond = nb_of(A0(c0))
     p_now, p_ent = lc.st.lookup(PENDING), lc.entry.lookup(PENDING)
     if p_now is None or p_ent is None:
         return z3.BoolVal(True)
@@ -940,7 +954,7 @@ def acc_pairs(lc):
 
 
 def greek_loop_inv(lc):
-    tv = lc.ex.entry_ctx.args["text"]
+    tv = A0(lc.ex.entry_ctx)
     pairs = acc_pairs(lc)
     if len(pairs) != 1 or pairs[0][0] is None or pairs[0][1] is None or not isinstance(tv, VStr):
         return z3.BoolVal(False)
@@ -969,7 +983,7 @@ def operand(c, e, name):
     call of process_element on that child (a fresh unconstrained string if there was none)"""
     P = sval(Q(name))
     r = FIND(e, P)
-    hits = [rv for (_t, am, rv) in rcalls(c) if isinstance(am.get("elem"), VExt) and am["elem"].t.eq(r)]
+    hits = [rv for (_t, am, rv) in rcalls(c) if isinstance(next(iter(am.values())), VExt) and next(iter(am.values())).t.eq(r)]
     got = hits[0].t if len(hits) == 1 else z3.String(fresh_name(f"no-unique-call-on-{name}"))
     return z3.If(FINDNONE(e, P), sval(""), got)
 
@@ -1003,7 +1017,7 @@ STRUCT_TAGS = ("f", "sSup", "sSub", "sSubSup", "rad", "nary", "d", "m", "func", 
 
 def path_tag(c):
     """the tag literal this path has committed to (from the path condition), if any"""
-    e = c.args["elem"]
+    e = A0(c)
     if not isinstance(e, VExt):
         return None
     ln = lname(e.t)
@@ -1019,7 +1033,7 @@ def path_tag(c):
 
 def template(tag):
     def clause(c):
-        ev = c.args["elem"]
+        ev = A0(c)
         if not verifying(c) or not isinstance(ev, VExt) or not isinstance(c.result, VStr):
             return z3.BoolVal(True)
         committed = path_tag(c)
@@ -1106,13 +1120,13 @@ def contracts(reg):
         fs = []
         if once(c.st, "const-facts-conv"):
             fs += const_facts(list(greek) + [""] + source_literals(fn_conv))
-        t = c.args["text"]
+        t = A0(c)
         if isinstance(t, VStr):
             fs += str_facts(t.t)
         return z3.And(fs) if fs else z3.BoolVal(True)
 
     def tx(c):
-        t = c.args["text"]
+        t = A0(c)
         return t.t if isinstance(t, VStr) else z3.String(fresh_name("not-a-str"))
 
     def conv_result(ex, st, c):
@@ -1120,8 +1134,8 @@ def contracts(reg):
 
     out.append(FnContract(
         target=f"{OMML}::convert_greek_and_symbols",
-        params=[("text", Maker(lambda ex, st, name: VStr(z3.String(name)), desc="str"))],
-        requires=lambda c: z3.BoolVal(isinstance(c.args["text"], VStr)),     # a str: None is not iterable
+        params=[(pname("convert_greek_and_symbols", 0, "text"), Maker(lambda ex, st, name: VStr(z3.String(name)), desc="str"))],
+        requires=lambda c: z3.BoolVal(isinstance(A0(c), VStr)),     # a str: None is not iterable
         hyps=conv_hyps,
         result_maker=conv_result,
         total=True, raises=[],
@@ -1140,13 +1154,13 @@ def contracts(reg):
         return p_inv(c.args[PENDING])
 
     def pe_hyps(c):
-        fs = list(elem_hyps(c.args["elem"]))
+        fs = list(elem_hyps(A0(c)))
         if once(c.st, "const-facts-pe"):
             fs += const_facts([""] + source_literals(fn_omml))
         ex = c.ex
-        if ex.contract is not None and ex.contract.target == PE and isinstance(c.args["elem"], VExt):
+        if ex.contract is not None and ex.contract.target == PE and isinstance(A0(c), VExt):
             wt = ex.witness_terms = getattr(ex, "witness_terms", {})
-            e = c.args["elem"].t
+            e = A0(c).t
             n0, t0 = opt_parts(c.args[PENDING])
             wt.setdefault("tag", lname(e))
             wt.setdefault("pending_is_none", n0)
@@ -1158,7 +1172,7 @@ def contracts(reg):
         return VStr(t)
 
     def pe_cond(c):
-        return z3.And(nb_of(c.args["elem"]), p_not_rbrace(c.args[PENDING]))
+        return z3.And(nb_of(A0(c)), p_not_rbrace(c.args[PENDING]))
 
     def pe_balance(c):
         h = H3(c.result.t)
@@ -1169,12 +1183,12 @@ def contracts(reg):
         return z3.Implies(pe_cond(c), z3.And(D_of(h) >= 0, p_not_rbrace(c.closure(PENDING))))
 
     def pe_none(c):
-        if isinstance(c.args["elem"], VExt):
+        if isinstance(A0(c), VExt):
             return z3.BoolVal(True)
         return z3.And(c.result.t == sval(""), p_same(c.args[PENDING], c.closure(PENDING)))
 
     def pe_skip(c):
-        ev = c.args["elem"]
+        ev = A0(c)
         if not verifying(c) or not isinstance(ev, VExt):
             return z3.BoolVal(True)
         tags = sorted(c.ex.module_const("_SKIP_TAGS").items)
@@ -1183,12 +1197,12 @@ def contracts(reg):
                                           z3.BoolVal(len(rcalls(c)) == 0)))
 
     def dec(c):
-        v = c.args["elem"]
+        v = A0(c)
         return SIZE(v.t) if isinstance(v, VExt) else z3.IntVal(0)
 
     out.append(FnContract(
         target=PE,
-        params=[("elem", p_opt(p_ext("Element")))],
+        params=[(pname(f"omml_to_latex.<locals>.{PE_NAME}", 0, "elem"), p_opt(p_ext("Element")))],
         closure=[(PENDING, p_optstr())], closure_modifies=(PENDING,),
         requires=pe_requires, hyps=pe_hyps, result_maker=pe_result,
         total=True, raises=[], decreases=dec,
@@ -1208,30 +1222,30 @@ def contracts(reg):
 
     # ----------------------------------------------------------------------- omml_to_latex --
     def om_hyps(c):
-        fs = list(elem_hyps(c.args["omath_element"]))
+        fs = list(elem_hyps(A0(c)))
         if once(c.st, "const-facts-om"):
             fs += const_facts([""] + source_literals(fn_omml))
         return z3.And(fs) if fs else z3.BoolVal(True)
 
     def om_none(c):
-        if isinstance(c.args["omath_element"], VExt):
+        if isinstance(A0(c), VExt):
             return z3.BoolVal(True)
         return c.result.t == sval("")
 
     out.append(FnContract(
         target=f"{OMML}::omml_to_latex",
-        params=[("omath_element", p_opt(p_ext("Element")))],
+        params=[(pname("omml_to_latex", 0, "omath_element"), p_opt(p_ext("Element")))],
         # callers hand in an Element or None (checked at every call site inside a function under contract)
-        requires=lambda c: z3.BoolVal(isinstance(c.args["omath_element"], VNoneT) or
-                                      (isinstance(c.args["omath_element"], VExt) and c.args["omath_element"].sort == "Element")),
+        requires=lambda c: z3.BoolVal(isinstance(A0(c), VNoneT) or
+                                      (isinstance(A0(c), VExt) and A0(c).sort == "Element")),
         hyps=om_hyps,
         # a function of the tree (the determinism policy obligations + no mutation of the tree by its callers)
-        result_maker=lambda ex, st, c: VStr(OML(c.args["omath_element"].t)) if isinstance(c.args["omath_element"], VExt)
+        result_maker=lambda ex, st, c: VStr(OML(A0(c).t)) if isinstance(A0(c), VExt)
         else VStr(""),
         total=True, raises=[],
         ensures=[
             ("returns-str", lambda c: z3.BoolVal(isinstance(c.result, VStr))),
-            ("balanced-for-brace-free-trees", lambda c: z3.Implies(nb_of(c.args["omath_element"]),
+            ("balanced-for-brace-free-trees", lambda c: z3.Implies(nb_of(A0(c)),
                                                                   bal_of(H3(c.result.t)) == 0)),
             ("None-is-empty", om_none),
         ],
@@ -1363,10 +1377,14 @@ def tables(repo, tier):
             if ".<locals>." in q:
                 continue
             for n in ast.walk(f):
-                if isinstance(n, ast.Call) and dotted(n.func) == "omml_to_latex":
+                if isinstance(n, ast.Call) and dotted(n.func).split(".")[-1] == "omml_to_latex":
                     sites.append((q, f, n))
         ok_all, why = bool(sites), []
+        from contracts import C19_sites as _S
+        covered = {t.split("::")[1] for t in (_S.T_PPTX, _S.T_DOCX, _S.T_PTE) if t.split("::")[0] == rel}
         for (q, f, n) in sites:
+            if q in covered:
+                continue          # the argument kind is a call-pre VC of that function's contract (or its bounded stand-in)
             a = n.args[0] if len(n.args) == 1 and not n.keywords else None
             ok = isinstance(a, ast.Name)
             if ok:
@@ -1386,31 +1404,14 @@ def tables(repo, tier):
         if sites:
             fns.append({"function": f"{rel}::(call sites of omml_to_latex)", "lines": [min(n.lineno for _, _, n in sites), max(n.lineno for _, _, n in sites)],
                         "file_sha256": cm.sha256, "segment_sha256": "", "obligations": 1})
-    # consumer of the pptx formula list: every (latex, is_display) pair becomes a PptxFormula with those fields
-    # and a "$$..$$" / "$..$" text entry  (syntactic; an unrecognised shape is decided by the native end-to-end run)
+    # consumer of the pptx formula list: the real loop body is executed symbolically for one arbitrary pair
+    # (contracts/C19_sites.py::consumer_obligation); an unrecognised shape is decided by the native end-to-end run
     try:
-        pm = loader.module("sharepoint2text/parsing/extractors/ms_modern/pptx_extractor.py", repo)
-        fs = pm.functions.get("_process_slide_from_context")
-        loops = [n for n in ast.walk(fs) if isinstance(n, ast.For) and isinstance(n.iter, ast.Call)
-                 and dotted(n.iter.func) == "_extract_formulas_from_element"] if fs is not None else []
-        calls = [n for n in ast.walk(pm.tree) if isinstance(n, ast.Call) and dotted(n.func) == "_extract_formulas_from_element"]
-        ok = len(loops) == 1 and len(calls) == 1
-        why = f"{len(loops)} consuming loops / {len(calls)} calls"
-        if ok:
-            lp = loops[0]
-            ok = isinstance(lp.target, ast.Tuple) and len(lp.target.elts) == 2 and all(isinstance(x, ast.Name) for x in lp.target.elts)
-        if ok:
-            a, b = (x.id for x in lp.target.elts)
-            top = [ast.unparse(x) for x in lp.body]          # statements executed on every iteration
-            ok = any(t.endswith(f"append(PptxFormula(latex={a}, is_display={b}))") for t in top) \
-                and any(f"f'$${{{a}}}$$' if {b} else f'${{{a}}}$'" in t for t in top) \
-                and not any(isinstance(x, (ast.Continue, ast.Break, ast.Return)) for st_ in lp.body for x in ast.walk(st_))
-            why = "; ".join(top)[:300]
-        P("pptx_extractor.py::_process_slide_from_context/call-site#every-listed-formula-becomes-PptxFormula-and-text", ok, why)
-        if fs is not None:
-            fns.append(dict(pm.fn_info("_process_slide_from_context"), obligations=1))
-    except FileNotFoundError:
-        und.append({"obligation": "C19/pptx_extractor.py::_process_slide_from_context", "why": "contract-target-missing"})
+        from contracts import C19_sites
+        ok, why = C19_sites.consumer_obligation(repo)
+    except Exception as e:  # noqa
+        ok, why = None, f"{type(e).__name__}: {e}"
+    P("pptx_extractor.py::_process_slide_from_context/call-site#every-listed-formula-becomes-PptxFormula-and-text", bool(ok), why)
     return {"obligations": obls, "functions": fns, "undecided": und}
 
 
@@ -1469,10 +1470,52 @@ def post_report(c, rep):
     contracts standing for calls): a solver model of one is a *candidate*, not a counterexample.  It becomes `unknown`;
     the native replayer (small-scope search on the real code) then either produces a failing input (VIOLATION) or
     leaves it UNDECIDED.  Ground table obligations (EXTRA) are definite and are not touched."""
+    if rep.out_of_subset or (rep.error and rep.error != "contract-target-missing"):
+        _native_standin(c, rep)
     for o in rep.obligations:
         if o.get("status") == "refuted":
             o["status"] = "unknown"
             o["reason"] = ("candidate counter-model over the pack's abstractions; " + (o.get("reason") or ""))[:300]
+
+
+def _native_standin(c, rep):
+    """The changed function left the subset the executor models (or broke a pack model).  Nothing is proved about it in
+    this run; instead the executable contract is run natively on the real code over the replayer's small scope.
+    A failing input -> `unknown` (the check replays it and reports the VIOLATION); none -> ONE obligation with status
+    `bounded-ok`: a BOUNDED stand-in (DESIGN 2.8), listed as such, never counted as discharged."""
+    import json
+    import os
+    import subprocess
+    root = os.path.dirname(os.path.dirname(os.path.abspath(__file__)))
+    rel, qual = c.target.split("::")
+    short = rel.split("/")[-1]
+    oid = f"C19/{short}::{getattr(c, 'oid_name', None) or qual}/out-of-subset"
+    why = ("OUT-OF-SUBSET " + rep.out_of_subset) if rep.out_of_subset else ("PACK-MODEL-ERROR " + str(rep.error))
+    repo = loader.REPO
+    try:
+        p_ = subprocess.run(["/venv/bin/python", os.path.join(root, "replay", "run.py")],
+                            input=json.dumps({"property": "C19", "obligation": oid, "repo": repo, "function": c.target}),
+                            capture_output=True, text=True, timeout=900, cwd=root, env=dict(os.environ, VERIF_REPO=repo))
+        lines = [l for l in p_.stdout.splitlines() if l.startswith("{")]
+        res = json.loads(lines[-1]) if lines else {"reproduced": False, "note": "no output"}
+    except Exception as e:  # noqa
+        res = {"reproduced": False, "note": f"native run failed: {e}"}
+    ob = {"id": oid, "kind": "out-of-subset", "vcs": 1, "seconds": 0.0, "backends": {"native-small-scope": 1}, "witness": None,
+          "loc": rel, "volatile": True}
+    if res.get("reproduced"):
+        ob.update(status="unknown", reason=(why + "; a failing input exists natively")[:300])
+    elif "satisf" in (res.get("note") or "") or "every formula" in (res.get("note") or ""):
+        ob.update(status="bounded-ok", bounded=True, bound="small scope of replay/C19.py (see BOUNDED)",
+                  reason=(why + "; not re-verified: " + (res.get("note") or ""))[:400])
+    else:
+        return                      # native run did not complete: stays out-of-subset (UNDECIDED)
+    rep.out_of_subset = None
+    rep.error = None
+    rep.obligations = [ob]
+    try:
+        rep.info = loader.module(rel).fn_info(qual)
+    except Exception:  # noqa
+        rep.info = {"function": c.target}
 
 
 REPLAY_UNKNOWN = True    # undecided / out-of-subset items are searched natively (replay) before being reported UNDECIDED
